@@ -35,7 +35,7 @@ REQUIRED_COUNTERS = ('copies_compared', 'range_copies_compared', 'recoveries_und
 
 
 def shards(tier, seed):
-    return split(tier, seed, 2000, 20000, 45, 900)
+    return split(tier, seed, 4000, 200000, 45, 900)
 
 
 class StepBound(Exception):
